@@ -176,10 +176,6 @@ func (h *RealtimeHandler) HandleParticipantJoin(ctx context.Context, handleFrame
 		return nil
 	}
 
-	if h.currentParticipant != nil {
-		h.leaveSession()
-	}
-
 	if !ok {
 		session = models.NewSession(h.Sessions.NewID(), h.FrameDuration)
 		session.AppKey = h.appKey
@@ -201,7 +197,23 @@ func (h *RealtimeHandler) HandleParticipantJoin(ctx context.Context, handleFrame
 		SignedLatency: &models.SignedLatency{},
 	}
 
-	session.AddParticipant(participant)
+	if !h.Sessions.AddParticipant(session, participant) {
+		// The session ended (its last participant left) after it was looked
+		// up: the join is refused and nothing has changed.
+		respond.Send(&hagallpb.ErrorResponse{
+			Type:      hagallpb.MsgType_MSG_TYPE_ERROR_RESPONSE,
+			Timestamp: timestamppb.Now(),
+			RequestId: req.RequestId,
+			Code:      hagallpb.ErrorCode_ERROR_CODE_NOT_FOUND,
+		})
+		return nil
+	}
+
+	// The new session is joined for sure: leave the current one now.
+	if h.currentParticipant != nil {
+		h.leaveSession()
+	}
+
 	h.stopFrameHandling = session.HandleFrame(handleFrame)
 
 	respond.Send(&hagallpb.ParticipantJoinResponse{
@@ -1042,8 +1054,9 @@ func (h *RealtimeHandler) leaveSession() {
 	if session.ParticipantCount() == 0 {
 		// Here we use a context.Background to ensure the session to be deleted
 		// on the session discovery service (eg HDS).
+		// Remove also closes the session - unless somebody joined it in the
+		// meantime, in which case it stays alive.
 		h.Sessions.Remove(context.Background(), session)
-		session.Close()
 	}
 
 	h.currentParticipant = nil
